@@ -394,6 +394,13 @@ def gen_cut(seed, opts=None):
                                'at': round(0.01 + rng.uniform(0, 0.03), 5), 'hops': rng.randint(0, 5)})
     else:
         plan['faults'].append({'kind': 'reset', 'at': round(0.01 + rng.uniform(0, 0.03), 5), 'hops': rng.randint(0, 5)})
+    f0 = plan['faults'][-1]
+    if f0['kind'] in ('close', 'reset') and rng.random() < 0.4:
+        # the application calls close() while its own (slow) on_close handler is still running
+        who = _pick(rng, [(1, 'client'), (1, 'server')])
+        plan[who]['on_close'] = ['sleep', _pick(rng, [(1, 0.05), (1, 1.0)])]
+        if not (f0['kind'] == 'close' and f0.get('who') == who):
+            plan['faults'].append({'kind': 'close', 'who': who, 'at': round(f0['at'] + _pick(rng, [(2, 0.005), (1, 0.02)]), 5), 'hops': 0})
     return plan
 
 
